@@ -6,10 +6,13 @@ import dataclasses
 import datetime as dt
 import decimal
 import enum
+import fractions
 import inspect
 import ipaddress
 import json
+import os
 import pathlib
+import traceback
 import types
 import typing
 import uuid
@@ -57,6 +60,12 @@ class Prio(enum.IntEnum):
 class Kind(str, enum.Enum):
     A = "a"
     B = "b"
+
+
+class Sw(enum.IntEnum):
+    """a switch: Sw.ON == 1 == True == 1.0 (one hash, four types), Sw.OFF == 0"""
+    OFF = 0
+    ON = 1
 
 
 class Perm(enum.Flag):
@@ -111,7 +120,7 @@ class Pair(typing.NamedTuple):
     b: typing.Any
 
 
-ENUMS = {c.__name__: c for c in (Mode, Level, Prio, Kind, Perm)}
+ENUMS = {c.__name__: c for c in (Mode, Level, Prio, Kind, Perm, Sw)}
 MODELS = {c.__name__: c for c in (Window, Job, Money)}
 DCS = {c.__name__: c for c in (Point, Span, Day)}
 
@@ -156,6 +165,8 @@ def dec(v):
                 return ENUMS[x[0]][x[1]] if isinstance(x[1], str) else ENUMS[x[0]](x[1])
             if k == "__dec__":
                 return decimal.Decimal(x)
+            if k == "__frac__":
+                return fractions.Fraction(x[0], x[1])
             if k == "__set__":
                 return {dec(e) for e in x}
             if k == "__fset__":
@@ -224,6 +235,8 @@ def canon(v, live=None):
         return {"__uuid__": v.hex}
     if isinstance(v, decimal.Decimal):
         return {"__dec__": str(v)}
+    if isinstance(v, fractions.Fraction):
+        return {"__frac__": [v.numerator, v.denominator]}
     if isinstance(v, (set, frozenset)):
         return {"__set__" if isinstance(v, set) else "__fset__": sorted((canon(x, live) for x in v), key=skey)}
     if isinstance(v, pathlib.PurePath):
@@ -284,9 +297,42 @@ def wire_form(py):
     return norm(py, canon(json_form(py)))
 
 
+_LABELS_CODE = []
+
+
+def pristine_prepare(v):
+    """prepare_label(v) as a process that has never sent anything computes it: the real taskiq/labels.py of the tree under
+    test, executed into a module namespace of its own made for this one value - so whatever that file (or anything else in
+    the process) remembers of earlier sends / earlier label values cannot reach the expectation, and computing the
+    expectation leaves no trace in the live taskiq.labels either (the driver itself never calls the live prepare_label).
+    Falls back to the live function only if the file cannot be executed on its own."""
+    if not _LABELS_CODE:
+        try:
+            import taskiq.labels as live
+            with open(live.__file__) as f:
+                _LABELS_CODE.append(compile(f.read(), live.__file__, "exec"))
+        except Exception:  # noqa: BLE001
+            _LABELS_CODE.append(None)
+    if _LABELS_CODE[0] is not None:
+        ns = {"__name__": "taskiq.labels", "__package__": "taskiq", "__file__": _LABELS_CODE[0].co_filename}
+        try:
+            exec(_LABELS_CODE[0], ns)  # noqa: S102 - the file of the tree under test, as `import` would run it
+            fn = ns["prepare_label"]
+        except Exception:  # noqa: BLE001
+            fn = None
+        if fn is not None:
+            return fn(v)
+    return prepare_label(v)
+
+
 def prepared(labels):
-    """what the statement expects on the wire for these labels: prepare_label (the subject of C09) of each"""
-    return {k: list(prepare_label(v)) for k, v in labels.items()}
+    """what the statement expects on the wire for these labels: prepare_label (the subject of C09) of each, history-free"""
+    return {k: list(pristine_prepare(v)) for k, v in labels.items()}
+
+
+def declared(labels, live=None):
+    """the schedule's own label values (canonical, type-preserving): what the oracle compares the received ones with"""
+    return {k: canon(v, live) for k, v in labels.items()}
 
 
 class SubProxyFormatter(ProxyFormatter):
@@ -342,9 +388,13 @@ class RecBroker(AsyncBroker):
             # a serializer that can carry Python objects (pickle): the values themselves arriving instead of their JSON
             # form is still "the schedule's arguments" - judged on the JSON form of whatever arrived
             args, kwargs = json_form(args), json_form(kwargs)
-        self.log.append(["kick", dict(task_name=m.task_name, args=canon(args), kwargs=canon(kwargs),
-                                      labels={k: [m.labels[k], m.labels_types.get(k) if m.labels_types else None]
-                                              for k in m.labels},
+        wire = {k: [m.labels[k], m.labels_types.get(k) if m.labels_types else None] for k in m.labels}
+        try:
+            m.parse_labels()                 # what the worker does with a received message (taskiq/receiver): the labels
+            seen = canon(m.labels)           # as the task's middlewares / Context see them - value AND type
+        except Exception as e:  # noqa: BLE001 - an observation
+            seen = {"__error__": type(e).__name__}
+        self.log.append(["kick", dict(task_name=m.task_name, args=canon(args), kwargs=canon(kwargs), labels=wire, seen=seen,
                                       bm_task_name=message.task_name, bm_labels=canon(message.labels))])
         await asyncio.sleep(self.kick_d / 1e6)
         if not self.kick_ok:
@@ -544,6 +594,23 @@ async def guarded(coro):
         return "raise:" + type(e).__name__
 
 
+def build_sched(p, sid):
+    kw = dict(task_name=p["task"], labels=dec(p["labels"]), args=dec(p["args"]), kwargs=dec(p["kwargs"]), schedule_id=sid)
+    if p.get("cron") is not None:
+        kw["cron"] = p["cron"]
+    if p.get("time") is not None:
+        kw["time"] = dec_time(p["time"])
+    return ScheduledTask(**kw)
+
+
+def fire_obs(log, res, st, expect, decl):
+    norm_kicks(log, st.args, st.kwargs)
+    # sched_args / sched_kwargs: the schedule's arguments in the form a decoded message has them = their JSON form, asked
+    # of pydantic directly (the identity on None / bool / int / float / str / list / dict)
+    return dict(effects=log, result=res, expect_labels=expect, decl_labels=decl, sched_args=wire_form(list(st.args)),
+                sched_kwargs=wire_form(dict(st.kwargs)))
+
+
 def run_fire(c):
     log, started = [], []
     reset_globals()
@@ -552,15 +619,8 @@ def run_fire(c):
     if not conf.get("late"):
         configure(b, conf)
     src, late_bind = make_source(log, started, c)
-    p = c["payload"]
-    kw = dict(task_name=p["task"], labels=dec(p["labels"]), args=dec(p["args"]), kwargs=dec(p["kwargs"]),
-              schedule_id=c["sid"])
-    if p.get("cron") is not None:
-        kw["cron"] = p["cron"]
-    if p.get("time") is not None:
-        kw["time"] = dec_time(p["time"])
-    st = ScheduledTask(**kw)
-    expect = prepared(st.labels)
+    st = build_sched(c["payload"], c["sid"])
+    expect, decl = prepared(st.labels), declared(st.labels)
 
     async def main(loop):
         loop.set_exception_handler(lambda *_: None)      # a future nobody waited for is an observation, not noise
@@ -574,11 +634,75 @@ def run_fire(c):
         return res
 
     res = vloop.run(main)
-    norm_kicks(log, st.args, st.kwargs)
-    # sched_args / sched_kwargs: the schedule's arguments in the form a decoded message has them = their JSON form, asked
-    # of pydantic directly (the identity on None / bool / int / float / str / list / dict)
-    return dict(effects=log, result=res, expect_labels=expect, sched_args=wire_form(list(st.args)),
-                sched_kwargs=wire_form(dict(st.kwargs)))
+    return fire_obs(log, res, st, expect, decl)
+
+
+# ------------------------------------------------------------------ histories of sends in one process
+def run_hist(c):
+    reset_globals()
+    try:
+        return run_hist_(c)
+    finally:
+        reset_globals()
+
+
+def run_hist_(c):
+    """Several sends one after another in ONE scheduler process (one event loop, one or two brokers), each step either
+      {"do": "fire", "on": i, <the fields of an on_ready scenario>}   sch.on_ready(source, schedule) on broker i; `sched`:
+            "reuse" = the scheduler object broker i already has, else a new TaskiqScheduler; "same_as": j = the very
+            ScheduledTask object of step j is fired again (a cron schedule, minute after minute)
+      {"do": "kiq", "on": i, "task": name, "decl": labels, "with": labels | None, "args": [...]}   a send that is not
+            scheduled: a task declared on broker i with labels (retry_on_error=True ...), task.kicker().with_labels(..).kiq()
+    Every firing is observed exactly as a single on_ready scenario is; what an earlier step left behind anywhere in the
+    process is the point."""
+    confs = c.get("brokers") or [{}]
+    brokers = []
+    for conf in confs:
+        b = RecBroker([])
+        if not conf.get("late"):
+            configure(b, conf)
+        brokers.append(b)
+
+    async def main(loop):
+        loop.set_exception_handler(lambda *_: None)
+        out, scheds, sts, lated = [], {}, {}, set()
+        for k, s in enumerate(c["steps"]):
+            i = s.get("on", 0) % len(brokers)
+            b, log, started = brokers[i], [], []
+            b.log = log
+            if s["do"] == "kiq":
+                b.kick_ok, b.kick_d = True, 0
+                task = b.find_task(s["task"])
+                if task is None:
+                    def fn(*a, **kw):
+                        return None
+                    task = b.register_task(fn, task_name=s["task"], **dec(s.get("decl") or {}))
+                kicker = task.kicker()
+                if s.get("with"):
+                    kicker = kicker.with_labels(**dec(s["with"]))
+                res = await guarded(kicker.kiq(*dec(s.get("args", []))))
+                log.append(["ret"])
+                out.append(dict(do="kiq", effects=log, result=res))
+                continue
+            b.kick_ok, b.kick_d = s["kick_ok"], s.get("kick_d", 0)
+            src, late_bind = make_source(log, started, s)
+            st = sts[s["same_as"]] if s.get("same_as") is not None else build_sched(s["payload"], s["sid"])
+            sts[k] = st
+            expect, decl = prepared(st.labels), declared(st.labels)
+            sch = scheds.get(i) if s.get("sched") == "reuse" else None
+            if sch is None:
+                sch = scheds[i] = TaskiqScheduler(b, [src] if s.get("registered", True) else [])
+            late_bind(src)
+            if confs[i].get("late") and i not in lated:
+                lated.add(i)
+                configure(b, confs[i])
+            res = await guarded(sch.on_ready(src, st))
+            log.append(["ret"])
+            await drain(started)
+            out.append(dict(fire_obs(log, res, st, expect, decl), do="fire"))
+        return out
+
+    return dict(steps=vloop.run(main))
 
 
 # ------------------------------------------------------------------ label source histories
@@ -762,7 +886,7 @@ def run_label_(c):
                     l = ok[op[1] % len(ok)]
                     s = l[op[2] % len(l)]
                 del log[:]
-                expect = prepared(s.labels)
+                expect, decl = prepared(s.labels), declared(s.labels, live)
                 before = sview(s)
                 del started[:]
                 wire_args, wire_kwargs = wire_form(list(s.args)), wire_form(dict(s.kwargs))
@@ -771,7 +895,7 @@ def run_label_(c):
                 v = view()                   # the registry as on_ready left it
                 await drain(started)
                 norm_kicks(log, s.args, s.kwargs)
-                obs.append(dict(op="fire", sched=before, expect_labels=expect, effects=list(log), result=res, view=v,
+                obs.append(dict(op="fire", sched=before, expect_labels=expect, decl_labels=decl, effects=list(log), result=res, view=v,
                                 by_hand=op[0] == "fire_decl", wire_args=wire_args, wire_kwargs=wire_kwargs))
         return obs
 
@@ -782,9 +906,43 @@ def run_label_(c):
     return dict(obs=vloop.run(main_))
 
 
-def run_case(c, opts):
+def run_case_(c):
     if c["type"] == "fire":
         return run_fire(c)
     if c["type"] == "label":
         return run_label(c)
+    if c["type"] == "hist":
+        return run_hist(c)
     raise ValueError(c["type"])
+
+
+def run_case(c, opts):
+    """Every case runs in a forked copy of this driver process as it was right after its imports - a process that has
+    not sent anything yet - so a case observes exactly what its replay (the case alone in a new process) observes:
+    whatever taskiq keeps process-wide (registries, caches keyed by task name / label value / annotation ...) starts
+    empty for each case and is filled by the case's own history only."""
+    if opts.get("inline") or not hasattr(os, "fork"):
+        return run_case_(c)
+    rfd, wfd = os.pipe()
+    pid = os.fork()
+    if pid == 0:
+        code = 1
+        try:
+            os.close(rfd)
+            try:
+                out = run_case_(c)
+            except BaseException:  # noqa: BLE001 - a crash is an observation
+                out = {"_crash": traceback.format_exc()[-2000:]}
+            data = json.dumps(out, default=str).encode()
+            with os.fdopen(wfd, "wb") as f:
+                f.write(data)
+            code = 0
+        finally:
+            os._exit(code)
+    os.close(wfd)
+    with os.fdopen(rfd, "rb") as f:
+        data = f.read()
+    _, status = os.waitpid(pid, 0)
+    if not data or status != 0:
+        return {"_crash": "case process ended with status %r and %d bytes of output" % (status, len(data))}
+    return json.loads(data)
